@@ -856,12 +856,23 @@ pub fn jalr(
 ) -> Result<(), Error> {
     let detail = details(instruction)?;
 
-    let target = get_register(detail.operands[0].reg())?.expression();
+    // `jalr $rs` links in $ra, `jalr $rd, $rs` links in $rd
+    let (link, target) = if detail.op_count == 2 {
+        (
+            get_register(detail.operands[0].reg())?.scalar(),
+            get_register(detail.operands[1].reg())?.expression(),
+        )
+    } else {
+        (
+            scalar("$ra", 32),
+            get_register(detail.operands[0].reg())?.expression(),
+        )
+    };
 
     let block_index = {
         let block = control_flow_graph.new_block()?;
 
-        block.assign(scalar("$ra", 32), expr_const(instruction.address + 8, 32));
+        block.assign(link, expr_const(instruction.address + 8, 32));
         block.branch(target);
 
         block.index()
